@@ -23,7 +23,7 @@ func (C18) NonReplayIsViolation() bool { return true }
 
 func (C18) Describe() CheckInfo {
 	return CheckInfo{
-		Rule: "Four seeded sub-checks. (a) run-to-run determinism: a scenario of the C10/C11/C12/C19 generators is executed in 3 fresh yq processes with different GOMAXPROCS, sandbox paths and PIDs; stdout, exit, final files and masked stderr must be identical (O18.1). (b) history independence: a history of 10-40 evaluations (stream / all-at-once / string APIs, also failing ones) over a pool of 6-12 jobs shares one parser, cached expression trees and pooled decoder/encoder instances inside one libsim process; every step must equal the same job alone in a fresh process (O18.2). (c) interleavings: 2-4 evaluations with private objects run as goroutines of which exactly one is runnable; a seeded choice list (or run-to-completion with 1-3 pre-emptions) decides every hand-off at operator dispatch, lexer token, parse phase, decode/print iteration and every Read/Write; every task must return its solo result (O18.3). (d) the same task pools free-running in a -race build (not deterministic simulation, labelled so): no race report (O18.4). Non-trivial = a history of >= 2 steps, an interleaving with >= 1 switch between tasks, or a repeated process run; distinct = distinct (sub-check, schedule signature / trace signature, result hash).",
+		Rule: "Five seeded sub-checks. (a) run-to-run determinism: a scenario of the C10/C11/C12/C19 generators is executed in 3 fresh yq processes with different GOMAXPROCS, sandbox paths and PIDs; stdout, exit, final files and masked stderr must be identical (O18.1). (b) history independence: a history of 10-40 evaluations (stream / all-at-once / string APIs, also failing ones) over a pool of 6-12 jobs shares one parser, cached expression trees and pooled decoder/encoder instances inside one libsim process; every step must equal the same job alone in a fresh process (O18.2). (c) interleavings: 2-4 evaluations with private objects run as goroutines of which exactly one is runnable; a seeded choice list (or run-to-completion with 1-3 pre-emptions) decides every hand-off at operator dispatch, lexer token, parse phase, decode/print iteration and every Read/Write; every task must return its solo result (O18.3). (d) the same task pools free-running in a -race build (not deterministic simulation, labelled so): no race report (O18.4). (e) two processes: two real yq processes share one working directory and one TMPDIR (front matter and -i on files of the same base name); the first parks at a seeded step boundary of its own run (hook action gate on a named pipe), the second runs from start to end, the first goes on; both must print, exit and leave their files as each does alone, with no temporary files left (O18.5). Non-trivial = a history of >= 2 steps, an interleaving with >= 1 switch between tasks, or a repeated process run; distinct = distinct (sub-check, schedule signature / trace signature, result hash).",
 		Assumptions: []string{
 			"now, shuffle, env/strenv/envsubst and tz/from_unix are excluded as the property says; the clock is pinned in libsim anyway",
 			"pre-emption only at yield points: a hazard confined between two yields is left to the -race stage",
@@ -324,7 +324,9 @@ func (C18) Generate(c *Ctx, r *Rand, index int) *Scenario {
 	case 0:
 		var sc *Scenario
 		src := Pick(rs, []string{"C10", "C10", "C19", "C12", "C11"})
-		if rs.Chance(1, 12) {
+		if rs.Chance(1, 10) {
+			return genPeerScenario(r.Fork("peer"))
+		} else if rs.Chance(1, 12) {
 			sc = genFrontMatterScenario(r.Fork("fm"))
 			src = "FM"
 		} else if rs.Chance(1, 6) {
@@ -431,6 +433,46 @@ func genFrontMatterScenario(r *Rand) *Scenario {
 		Meta: map[string]any{"expr": expr, "keep_flags": []any{"--front-matter=" + mode}}}
 }
 
+// genPeerScenario: two yq processes at the same time in one working directory and one TMPDIR, on two
+// different files (often of the same base name in two directories). Which of the first process's step
+// boundaries the second one runs at is the scenario's gate pick.
+func genPeerScenario(r *Rand) *Scenario {
+	g := &DocGen{R: r.Fork("doc"), Plain: true}
+	bodyA := g.Doc(DocID(r, 0, 0)).YAML()
+	bodyB := g.Doc(DocID(r, 1, 0)).YAML()
+	exprs := []string{".a = 1", ".", ".id", ".src = \"x\"", "[.id]", "del(.id)", ".. style=\"double\""}
+	exprA, exprB := Pick(r, exprs), Pick(r, exprs)
+	base := Pick(r, []string{"post.md", "t.yaml", "a b.yml"})
+	nameA, nameB := "d1/"+base, "d2/"+base
+	if r.Chance(1, 4) {
+		nameB = "d2/other-" + base
+	}
+	var flags []string
+	kind := Pick(r, []string{"fm-extract", "fm-process", "fm-process-inplace", "inplace", "inplace"})
+	dataA, dataB := bodyA, bodyB
+	switch kind {
+	case "fm-extract":
+		flags = []string{"--front-matter=extract"}
+	case "fm-process":
+		flags = []string{"--front-matter=process"}
+	case "fm-process-inplace":
+		flags = []string{"--front-matter=process", "-i"}
+	case "inplace":
+		flags = []string{"-i"}
+	}
+	if strings.HasPrefix(kind, "fm-") {
+		dataA = "---\n" + bodyA + "---\n# Title A\n\ntext of the first\n"
+		dataB = "---\n" + bodyB + "---\n# Title B\n\ntext of the second, longer than the first one is\n"
+	}
+	argvA := append(append([]string{}, flags...), exprA, nameA)
+	argvB := append(append([]string{}, flags...), exprB, nameB)
+	return &Scenario{Kind: "proc", Argv: argvA,
+		Files: []File{{Name: nameA, Data: Bytes(dataA), Mode: 0644}, {Name: nameB, Data: Bytes(dataB), Mode: 0640}},
+		Peer:  &Peer{Argv: argvB},
+		Meta:  map[string]any{"sub": "peers", "kind": kind, "gate_pick": r.Intn(1000), "tmp_other": false},
+		TmpOther: r.Chance(1, 5)}
+}
+
 // --- judging -------------------------------------------------------------------------
 
 var (
@@ -506,6 +548,63 @@ func (C18) Judge(c *Ctx, sc *Scenario) []Violation {
 		c.Count("subcheck." + sub)
 	}
 	switch sub {
+	case "peers":
+		// each process alone, in a sandbox of its own
+		aloneA := &Scenario{Kind: "proc", Argv: sc.Argv, Files: sc.Files, TmpOther: sc.TmpOther}
+		aloneB := &Scenario{Kind: "proc", Argv: sc.Peer.Argv, Files: sc.Files, TmpOther: sc.TmpOther}
+		oa, ob := c.Exec(aloneA), c.Exec(aloneB)
+		// the gate: the gate_pick-th step boundary of the first process's own run
+		var steps []Event
+		for _, e := range oa.Events {
+			if e.Kind == "step" || e.Kind == "stepfile" {
+				steps = append(steps, e)
+			}
+		}
+		run := sc.Clone()
+		kind := sc.MetaString("kind")
+		if len(steps) == 0 {
+			run.Peer.GateSite, run.Peer.GateOcc = "none", 1
+		} else if run.Peer.GateSite == "" {
+			// a site first, then one of its occurrences: a step that repeats per line does not crowd out the rest
+			var sites []string
+			bySite := map[string][]Event{}
+			for _, e := range steps {
+				if len(bySite[e.Site]) == 0 {
+					sites = append(sites, e.Site)
+				}
+				bySite[e.Site] = append(bySite[e.Site], e)
+			}
+			pick := sc.MetaInt("gate_pick")
+			of := bySite[sites[pick%len(sites)]]
+			e := of[(pick/len(sites))%len(of)]
+			run.Peer.GateSite, run.Peer.GateOcc = e.Site, e.Occ
+		}
+		both := c.Exec(run)
+		if !c.Quiet {
+			c.Count("peers.ran." + both.PeerRan)
+			c.Count("peers.kind." + kind)
+			c.Count("peers.gate." + run.Peer.GateSite)
+			c.Stats.Distinct("peers "+kind+" "+run.Peer.GateSite+"#"+strconv.Itoa(run.Peer.GateOcc)+" "+shortHash(both.Stdout)+shortHash(both.PeerStdout), both.PeerRan == "at-gate")
+		}
+		at := fmt.Sprintf("kind=%s gate=%s", kind, run.Peer.GateSite)
+		desc := fmt.Sprintf("first: yq %s | second (run while the first was parked at %s#%d, %s): yq %s", strings.Join(sc.Argv, " "), run.Peer.GateSite, run.Peer.GateOcc, both.PeerRan, strings.Join(sc.Peer.Argv, " "))
+		nameA, nameB := sc.Argv[len(sc.Argv)-1], sc.Peer.Argv[len(sc.Peer.Argv)-1]
+		switch {
+		case both.TimedOut:
+			add("O18.5", "who=first differs=hang "+at, "the first process did not end once the second had run: "+desc)
+		case !bytes.Equal(both.Stdout, oa.Stdout) || both.Exit != oa.Exit || both.Signal != oa.Signal:
+			add("O18.5", "who=first differs=output "+at, fmt.Sprintf("the first process gave %q / exit %d (stderr %q) with the second one running in between, alone it gives %q / exit %d | %s",
+				clip(both.Stdout, 200), both.Exit, clip([]byte(maskStderr(both.Stderr)), 200), clip(oa.Stdout, 200), oa.Exit, desc))
+		case !bytes.Equal(both.PeerStdout, ob.Stdout) || both.PeerExit != ob.Exit:
+			add("O18.5", "who=second differs=output "+at, fmt.Sprintf("the second process gave %q / exit %d (stderr %q) while the first one was parked, alone it gives %q / exit %d | %s",
+				clip(both.PeerStdout, 200), both.PeerExit, clip([]byte(maskStderr(both.PeerStderr)), 200), clip(ob.Stdout, 200), ob.Exit, desc))
+		case both.Files[nameA].String() != oa.Files[nameA].String():
+			add("O18.5", "who=first differs=file "+at, fmt.Sprintf("%s ends as %s, after the first process alone it is %s | %s", nameA, both.Files[nameA], oa.Files[nameA], desc))
+		case both.Files[nameB].String() != ob.Files[nameB].String():
+			add("O18.5", "who=second differs=file "+at, fmt.Sprintf("%s ends as %s, after the second process alone it is %s | %s", nameB, both.Files[nameB], ob.Files[nameB], desc))
+		case len(both.TmpLeft) != len(oa.TmpLeft)+len(ob.TmpLeft):
+			add("O18.5", "differs=tempfiles "+at, fmt.Sprintf("%d temporary files are left, %d and %d after the single runs | %s", len(both.TmpLeft), len(oa.TmpLeft), len(ob.TmpLeft), desc))
+		}
 	case "determinism":
 		runs := []RunOpts{{GOMAXPROCS: 1}, {GOMAXPROCS: 4}, {GOMAXPROCS: 16}}
 		var outs []*Outcome
